@@ -404,12 +404,13 @@ Definition ns_ok (S : pset) (r : vrow) (c : ctx) : bool := is_some (escan (inset
 
 (* ------------------------------------------------------------------------------------------------ specification side *)
 Local Open Scope string_scope.
-(* stores that do not change what the read API reports: the "current ZoneGridConnectivity" selector defaulting to 1, the
+(* stores that do not change what the read API reports: the "current ZoneGridConnectivity" selector DEFAULTING to 1 in
+   cgi_get_zconn (the explicit selection `zone->active_zconn = C` of cgi_get_zconnZC is session state and is NOT benign: it
+   must follow the range test of C), the
    lazily allocated EMPTY ZoneGridConnectivity / ZoneBC containers of write mode (id 0: written to the file only when a
    child is added), the zone-name hash maps (an index over base->zone built on first use).  (function, path prefix) *)
 Definition benign_stores : list (string * string) :=
   [("cgi_get_zconn", "zone->active_zconn"); ("cgi_get_zconn", "zone->zconn");
-   ("cgi_get_zconnZC", "zone->active_zconn");
    ("cgi_get_zboco", "zone->zboco");
    ("cg_zone_write", "base->zonemap"); ("cg_particle_write", "base->pzonemap");
    ("cgi_read_base", "base->zonemap"); ("cgi_read_base", "base->pzonemap");
